@@ -1075,6 +1075,14 @@ inline std::string parseResult(const std::string& text, Syntax syn) {
   return vh::astWire(p.AST().Root());
 }
 
+// the same Parser object parses `prelude` (in the same syntax) first
+inline std::string parseResultAfter(const std::string& prelude, const std::string& text, Syntax syn) {
+  ccl::rslang::Parser p;
+  (void)p.Parse(prelude, syn);
+  if (!p.Parse(text, syn)) return "fail";
+  return vh::astWire(p.AST().Root());
+}
+
 // ---------------------------------------------------------------------------------------------
 // cases, coverage, batch-forked execution
 // ---------------------------------------------------------------------------------------------
